@@ -76,16 +76,9 @@ def load_known(path=None) -> List[dict]:
     return data.get("findings", [])
 
 
-def finish(col: Collector, tier: str, seed: int, t0: float, meta: dict) -> int:
-    """Print the report, write evidence, return the exit code."""
-    from .model import AnalysisError
-
+def classify(col: Collector):
+    """Split failed obligations into (violations, known-finding hits)."""
     prop = col.prop
-    for name, actual, minimum in col.floors:
-        if actual < minimum:
-            raise AnalysisError(
-                f"instance floor: {name} analysed {actual} < {minimum} confirmed by hand"
-            )
     known = [k for k in load_known() if k.get("property") == prop]
     known_keys = {(k["rule"], k["construct"]): k for k in known if k.get("status") == "known"}
     failed = [o for o in col.obs if not o.ok]
@@ -100,6 +93,20 @@ def finish(col: Collector, tier: str, seed: int, t0: float, meta: dict) -> int:
             known_hits.append(o)
         else:
             violations.append(o)
+    return violations, known_hits, known_keys
+
+
+def finish(col: Collector, tier: str, seed: int, t0: float, meta: dict) -> int:
+    """Print the report, write evidence, return the exit code."""
+    from .model import AnalysisError
+
+    prop = col.prop
+    for name, actual, minimum in col.floors:
+        if actual < minimum:
+            raise AnalysisError(
+                f"instance floor: {name} analysed {actual} < {minimum} confirmed by hand"
+            )
+    violations, known_hits, known_keys = classify(col)
     evdir = os.path.join(VERIF, "evidence")
     os.makedirs(evdir, exist_ok=True)
     for o in known_hits:
